@@ -20,9 +20,12 @@
 (*  "ub"   : the C expression has undefined behaviour (outside C14).        *)
 (*  "wide" : the mathematically defined result is outside the range this   *)
 (*           TLC-integer model carries (|v| >= 2^31 or a modular wrap of an *)
-(*           unsigned/64-bit type) - decided by the limb model NmfuWide.    *)
+(*           unsigned/64-bit type).  Eval is the fast 32-bit evaluator;     *)
+(*           EvalC falls back to the exact limb evaluator EvalW (module     *)
+(*           NmfuWide) whenever Eval answers "wide", and yields status      *)
+(*           "big" with the wide value w when the result does not fit.      *)
 (***************************************************************************)
-EXTENDS Integers, Sequences, Bitwise
+EXTENDS Integers, Sequences, Bitwise, NmfuWide
 
 MAXI == 2147483647
 MINI == -2147483647 - 1
@@ -181,7 +184,9 @@ FoldLogic(cs, i, isor, env) ==
 Eval(e, env) ==
   CASE e.k = "lit" -> Ok(e.v, "int")
     [] e.k = "litwide" -> Wide
-    [] e.k = "var" -> LET D == env.decl[e.name] IN Ok(env.d[e.name].v, DeclType(D, env.cfg.packed))
+    [] e.k = "litw" -> Wide
+    [] e.k = "var" -> LET D == env.decl[e.name] IN
+                      IF "w" \in DOMAIN env.d[e.name] THEN Wide ELSE Ok(env.d[e.name].v, DeclType(D, env.cfg.packed))
     [] e.k = "len" -> Ok(env.d[e.name].len, CounterType(env.decl[e.name]))
     [] e.k = "idx" ->
          LET D == env.decl[e.name] cell == env.d[e.name] size == D.size IN
@@ -203,4 +208,118 @@ Eval(e, env) ==
 
 \* a condition (IntegerCondition wraps ints as `!= 0` at construction, so exprs are 0/1)
 Truth(x) == x.v # 0
+
+\* ---------------- exact evaluation over wide integers ----------------
+\* results: [s |-> "ok" | "ub" | "wide", w |-> wide integer, t |-> ctype]
+TBits(t) == IF t \in {"int", "uint"} THEN 32 ELSE 64
+TSigned(t) == t \in {"int", "long"}
+RW(s, w, t) == [s |-> s, w |-> w, t |-> t]
+OkW(w, t) == RW("ok", w, t)
+UBW == RW("ub", WZero, "int")
+WideW == RW("wide", WZero, "int")
+WorstW(a, b) == IF a.s = "ub" \/ b.s = "ub" THEN UBW ELSE WideW
+\* conversion to type t: modular for unsigned targets; a signed target always holds the operands it is given by the
+\* usual arithmetic conversions, except ulong -> long style narrowing, which gcc defines as modular too
+ConvW(x, t) == OkW(WConv(x.w, TBits(t), TSigned(t)), t)
+
+ArithWV(op, a0, b0) ==
+  IF a0.s # "ok" \/ b0.s # "ok" THEN WorstW(a0, b0)
+  ELSE LET t == UAC(a0.t, b0.t)
+           bits == TBits(t) sg == TSigned(t)
+           a == ConvW(a0, t).w b == ConvW(b0, t).w
+           fit(r) == IF sg THEN (IF WInRange(r, bits, TRUE) THEN OkW(r, t) ELSE UBW) ELSE OkW(WConv(r, bits, FALSE), t)
+       IN CASE op = "+" -> fit(WAdd(a, b))
+            [] op = "-" -> fit(WSub(a, b))
+            [] op = "*" -> fit(WMul(a, b))
+            [] op = "/" -> IF b = WZero THEN UBW ELSE fit(WDiv(a, b))
+            [] op = "%" -> IF b = WZero THEN UBW
+                           ELSE IF sg /\ ~WInRange(WDiv(a, b), bits, TRUE) THEN UBW
+                           ELSE OkW(WMod(a, b), t)
+            [] op \in {"&", "|", "^"} -> OkW(WBitOp(op, a, b, bits, sg), t)
+
+CmpWV(op, a0, b0) ==
+  IF a0.s # "ok" \/ b0.s # "ok" THEN WorstW(a0, b0)
+  ELSE LET t == UAC(a0.t, b0.t)
+           c == WCmp(ConvW(a0, t).w, ConvW(b0, t).w)
+           r == CASE op = "<" -> c < 0 [] op = ">" -> c > 0 [] op = "<=" -> c <= 0
+                  [] op = ">=" -> c >= 0 [] op = "==" -> c = 0 [] op = "!=" -> c # 0
+       IN OkW(WFromInt(IF r THEN 1 ELSE 0), "int")
+
+ShiftWV(left, a, b) ==
+  IF a.s # "ok" \/ b.s # "ok" THEN WorstW(a, b)
+  ELSE LET bits == TBits(a.t) sg == TSigned(a.t) IN
+    IF b.w.neg \/ ~WFitsInt(b.w) THEN UBW
+    ELSE LET n == WToInt(b.w) IN
+      IF n >= bits THEN UBW
+      ELSE IF left THEN
+             (IF sg THEN (IF a.w.neg THEN UBW
+                          ELSE LET r == WMk(FALSE, MShl(a.w.m, n)) IN IF WInRange(r, bits, TRUE) THEN OkW(r, a.t) ELSE UBW)
+              ELSE OkW(WShl(a.w, n, bits, FALSE), a.t))
+      ELSE OkW(WShr(a.w, n, bits, sg), a.t)
+
+ArithW(op, a0, b0) == CHOOSE x \in {ArithWV(op, a, b) : a \in {a0}, b \in {b0}} : TRUE
+CmpW(op, a0, b0) == CHOOSE x \in {CmpWV(op, a, b) : a \in {a0}, b \in {b0}} : TRUE
+ShiftW(left, a0, b0) == CHOOSE x \in {ShiftWV(left, a, b) : a \in {a0}, b \in {b0}} : TRUE
+
+RECURSIVE EvalW(_, _)
+RECURSIVE FoldArithW(_, _, _, _, _)
+FoldArithW(acc, cs, ops, i, env) ==
+  IF i > Len(cs) THEN acc
+  ELSE FoldArithW(ArithW(ops[i], acc, EvalW(cs[i], env)), cs, ops, i + 1, env)
+RECURSIVE FoldLogicW(_, _, _, _)
+FoldLogicW(cs, i, isor, env) ==
+  IF i > Len(cs) THEN OkW(WFromInt(IF isor THEN 0 ELSE 1), "int")
+  ELSE CHOOSE res \in {
+    IF x.s # "ok" THEN x
+    ELSE IF isor /\ x.w # WZero THEN OkW(WFromInt(1), "int")
+    ELSE IF ~isor /\ x.w = WZero THEN OkW(WFromInt(0), "int")
+    ELSE FoldLogicW(cs, i + 1, isor, env)
+    : x \in {EvalW(cs[i], env)}} : TRUE
+
+EvalW(e, env) ==
+  CASE e.k = "lit" -> OkW(WFromInt(e.v), "int")
+    [] e.k = "litw" -> OkW(e.w, "long")
+    [] e.k = "litwide" -> WideW
+    [] e.k = "var" -> LET D == env.decl[e.name] cell == env.d[e.name] IN
+                      OkW(IF "w" \in DOMAIN cell THEN cell.w ELSE WFromInt(cell.v), DeclType(D, env.cfg.packed))
+    [] e.k = "len" -> OkW(WFromInt(env.d[e.name].len), CounterType(env.decl[e.name]))
+    [] e.k = "idx" ->
+         LET D == env.decl[e.name] cell == env.d[e.name] size == D.size IN
+         CHOOSE res \in {
+         IF i.s # "ok" THEN i
+         ELSE IF ~i.w.neg /\ WFitsInt(i.w) /\ WToInt(i.w) < size
+              THEN (IF cell.al \in {"null", "freed"} THEN UBW
+                    ELSE OkW(WFromInt(ByteAsChar(cell.buf[WToInt(i.w) + 1], env.cfg.u8 \/ D.type = "raw")), "int"))
+              ELSE (IF env.cfg.unsafe THEN UBW ELSE OkW(WZero, "int"))
+         : i \in {EvalW(e.i, env)}} : TRUE
+    [] e.k = "last" -> OkW(WFromInt(env.last), "int")
+    [] e.k = "sum" -> FoldArithW(EvalW(e.c[1], env), e.c, [j \in 1..Len(e.neg) |-> IF e.neg[j] THEN "-" ELSE "+"], 2, env)
+    [] e.k = "mul" -> FoldArithW(EvalW(e.c[1], env), e.c, e.ops, 2, env)
+    [] e.k = "bit" -> FoldArithW(EvalW(e.c[1], env), e.c, [j \in 1..Len(e.c) |-> e.op], 2, env)
+    [] e.k = "cmp" -> CmpW(e.op, EvalW(e.l, env), EvalW(e.r, env))
+    [] e.k = "shift" -> ShiftW(e.left, EvalW(e.l, env), EvalW(e.r, env))
+    [] e.k = "or" -> FoldLogicW(e.c, 1, TRUE, env)
+    [] e.k = "and" -> FoldLogicW(e.c, 1, FALSE, env)
+
+\* ---------------- the evaluator the machine specification uses ----------------
+\* status "ok" (v fits the TLC integers), "big" (exact value in w), "ub", "wide" (not modelled)
+NarrowW(x) == IF x.s # "ok" THEN R(x.s, 0, "int")
+              ELSE IF WFitsInt(x.w) THEN Ok(WToInt(x.w), x.t)
+              ELSE [s |-> "big", v |-> 0, t |-> x.t, w |-> x.w]
+EvalC(e, env) == CHOOSE y \in {IF r.s # "wide" THEN r ELSE NarrowW(EvalW(e, env)) : r \in {Eval(e, env)}} : TRUE
+NonZero(x) == IF x.s = "big" THEN TRUE ELSE x.v # 0
+\* the low byte of a value (character append)
+LowByte(x) == IF x.s = "big" THEN (LET p == WPattern(x.w, 64) IN IF p = <<>> THEN 0 ELSE p[1] % 256) ELSE x.v % 256
+AsWide(x) == IF x.s = "big" THEN x.w ELSE WFromInt(x.v)
+CellOf(w) == IF WFitsInt(w) THEN [v |-> WToInt(w)] ELSE [w |-> w]
+\* store conversion: [s |-> status, cell |-> the scalar cell holding the converted value]
+StoreCellV(x, D) ==
+  IF x.s \notin {"ok", "big"} THEN [s |-> x.s, cell |-> [v |-> 0]]
+  ELSE LET fast == IF x.s = "ok" THEN StoreConvV(x, D) ELSE Wide IN
+    IF fast.s = "ok" THEN [s |-> "ok", cell |-> [v |-> fast.v]]
+    ELSE IF fast.s = "ub" THEN [s |-> "ub", cell |-> [v |-> 0]]
+    ELSE CASE D.type = "bool" -> [s |-> "ok", cell |-> [v |-> IF NonZero(x) THEN 1 ELSE 0]]
+           [] D.type = "int" -> [s |-> "ok", cell |-> CellOf(WConv(AsWide(x), 8 * D.width, D.signed))]
+           [] OTHER -> [s |-> "wide", cell |-> [v |-> 0]]
+StoreCell(x0, D) == CHOOSE y \in {StoreCellV(x, D) : x \in {x0}} : TRUE
 =============================================================================
